@@ -3,8 +3,8 @@
    `aq` is the exact quantity of an amount, `bden`/`den` the exact quantity a balance /
    value holds per commodity; `cp` is the commodity pool's display precision, `ord` the
    (unspecified) hash-table insertion order - every statement holds for all of them. *)
-From LedgerV Require Import Base.Prelude Base.Round Model.Amount Proofs.AmountProofs Proofs.CompareProofs Gen.SourceGuards.
-From Coq Require Import Qabs.
+From LedgerV Require Import Base.Prelude Base.Round Model.Amount Proofs.AmountProofs Proofs.SortedProofs Proofs.CompareProofs Gen.SourceGuards.
+From Coq Require Import Qabs Permutation.
 Local Open Scope Q_scope.
 
 (* ---- amounts: each operation returns the exact rational result or the stated error ---- *)
@@ -83,8 +83,8 @@ Proof. exact v_ltb_balance_exact. Qed.
 Print Assumptions balance_less_than_on_exact_values.
 
 Theorem balance_less_than_vetoed_by_equal_component : forall w q b x r,
-  scalar_q w = Some q -> In x b -> aq x == q -> bal_all_lt b w = Ok r -> r = false.
-Proof. exact bal_lt_equal_component. Qed.
+  scalar_q w = Some q -> In x b -> aq x == q -> v_ltb (VBal b) w = Ok r -> r = false.
+Proof. exact v_ltb_balance_equal_component. Qed.
 Print Assumptions balance_less_than_vetoed_by_equal_component.
 
 Example ex_balance_boundary :
@@ -92,6 +92,53 @@ Example ex_balance_boundary :
   v_ltb (VBal [five]) (VAmt five) = Ok false /\
   v_ltb (VBal [five]) (VAmt (mkAmt (501 # 100) 2 false (Some [36%Z]))) = Ok true.
 Proof. vm_compute. split; reflexivity. Qed.
+
+(* since /repo 55e6d28 (finding F190 repaired) value_t::is_less_than walks a balance in commodity order (sorted_amounts),
+   not in hash-table order, and stops at the first entry that decides.  The comparison of a balance with ANY operand -
+   a plain number, a COMMODITIZED amount, another balance -, on either side, is therefore a function of the contents of
+   the table: the same truth value, or the same error, for every Permutation of the entries (`distinct_keys`: one entry
+   per commodity, the invariant of the table).  `<`, `>`, `<=`, `>=` of the expression language are all built from it. *)
+Theorem balance_comparison_order_free : forall b b' w,
+  distinct_keys b -> Permutation b b' ->
+  v_ltb (VBal b) w = v_ltb (VBal b') w /\ v_ltb w (VBal b) = v_ltb w (VBal b').
+Proof. exact v_ltb_balance_perm. Qed.
+Print Assumptions balance_comparison_order_free.
+
+Theorem expression_orderings_are_built_from_less_than : forall ord cp o l r v w,
+  match o with OLt | OGt | OLe | OGe => True | _ => False end ->
+  aeval ord cp l = Ok v -> aeval ord cp r = Ok w ->
+  aeval ord cp (EBin o l r) = do b <- v_cmp o v w; Ok (VBool b).
+Proof. exact aeval_cmp_is_v_cmp. Qed.
+Print Assumptions expression_orderings_are_built_from_less_than.
+
+Theorem balance_ordering_operators_order_free : forall o b b' w,
+  distinct_keys b -> Permutation b b' ->
+  v_cmp o (VBal b) w = v_cmp o (VBal b') w /\ v_cmp o w (VBal b) = v_cmp o w (VBal b').
+Proof. exact v_cmp_balance_perm. Qed.
+Print Assumptions balance_ordering_operators_order_free.
+
+(* value_t::is_greater_than on the same cells (reached from C++ callers comparing a value with an amount_t / a long) *)
+Theorem balance_greater_than_walk_order_free : forall w b b',
+  distinct_keys b -> Permutation b b' -> bal_gt_scalar b w = bal_gt_scalar b' w.
+Proof. exact bal_gt_scalar_perm. Qed.
+Print Assumptions balance_greater_than_walk_order_free.
+
+(* the former witness of the order dependence: `(1 EUR + 2 USD) < 1 EUR` is false and `(1 EUR + 2 USD) < 2 USD` is the
+   error "different commodities" (EUR is met first and is not comparable with USD), whichever way the table lists them;
+   `(0.5 EUR + 2 USD) < 1 EUR` passes EUR and fails on USD *)
+Example ex_balance_against_commoditized_amount :
+  let eur q := mkAmt q 0 false (Some [69; 85; 82]%Z) in
+  let usd q := mkAmt q 0 false (Some [85; 83; 68]%Z) in
+  distinct_keys [eur 1; usd 2] /\
+  v_ltb (VBal [eur 1; usd 2]) (VAmt (eur 1)) = Ok false /\ v_ltb (VBal [usd 2; eur 1]) (VAmt (eur 1)) = Ok false /\
+  v_ltb (VBal [eur 1; usd 2]) (VAmt (usd 2)) = Err EDiffComm /\ v_ltb (VBal [usd 2; eur 1]) (VAmt (usd 2)) = Err EDiffComm /\
+  v_ltb (VBal [usd 2; eur (1 # 2)]) (VAmt (eur 1)) = Err EDiffComm /\
+  v_ltb (VBal [usd 2; eur 1]) (VAmt (mkAmt 3 0 false None)) = Ok true.
+Proof.
+  cbv zeta. split.
+  - unfold distinct_keys. cbn. constructor; [intros [H|[]]; discriminate | constructor; [intros [] | constructor]].
+  - vm_compute. repeat split; reflexivity.
+Qed.
 
 (* ---- laws ---- *)
 Theorem addition_commutative : forall a b r r',
